@@ -68,6 +68,20 @@ namespace ip {
 		s.m_bound_to = ip::udp::endpoint();
 		if (m_bound_to != ip::udp::endpoint())
 			m_io_service.rebind_udp_socket(this, m_bound_to);
+
+		// a deferred writable-wait calls back into the socket it was started
+		// on. Start it over for this object
+		if (m_wait_send_handler)
+		{
+			m_send_timer.expires_at(m_send_timer.expiry());
+			m_send_timer.async_wait([this](boost::system::error_code const& e)
+			{
+				if (e || !m_wait_send_handler) return;
+				auto h = std::move(m_wait_send_handler);
+				m_wait_send_handler = nullptr;
+				h(boost::system::error_code());
+			});
+		}
 	}
 
 	udp::socket::~socket()
